@@ -108,6 +108,60 @@ Proof.
   destruct (dec_time _ _ _ _) as [tv ttl']. destruct tv; reflexivity.
 Qed.
 
+(* the same for the two clock readings: the cache-independent part (which uses the reading at receipt only), then the
+   replay step with the FRESH reading now2 - a credential that was not recorded is accepted only if now2 is not beyond
+   the record's expiry (snd k = time0 + capped ttl) *)
+Lemma dec_process2_factor cf mem rs m pu pg now now2 :
+  dec_process2 hmac sha1 blk_dec zdecomp cf mem rs m pu pg now now2 =
+  match dec_pre cf mem m pu pg now with
+  | inl r => (r, rs, None)
+  | inr (m', k) =>
+      if r_mem k rs then
+        if cf_socket_retry cf && (0 <? m_retry m') && (m_retry m' <=? c_retry_attempts)
+        then (m', rs, None)
+        else (dec_finish (set_err m' e_cred_replayed None), rs, None)
+      else if snd k <? now2 then (dec_finish (set_err m' e_cred_expired None), k :: rs, None)
+           else (m', k :: rs, Some k)
+  end.
+Proof.
+  unfold CredModel.dec_process2, RetryModel.dec_pre.
+  destruct (m_data_len m =? 0); [reflexivity|].
+  destruct (c_retry_attempts <? _); [reflexivity|].
+  destruct (CredModel.dec_parse _ _ _ _ _ _) as [e|[m2 tag]]; [reflexivity|].
+  destruct (negb _); [reflexivity|].
+  destruct (dec_time _ _ _ _) as [tv ttl']. destruct tv; reflexivity.
+Qed.
+
+(* an accepted presentation is never later than the record's expiry (by the reading at receipt) *)
+Lemma dec_pre_expiry cf mem m pu pg now m' k :
+  dec_pre cf mem m pu pg now = inr (m', k) -> u32 now <= snd k /\ m_retry m' = m_retry m.
+Proof.
+  unfold RetryModel.dec_pre. intros H.
+  destruct (m_data_len m =? 0); [discriminate|].
+  destruct (c_retry_attempts <? _); [discriminate|].
+  destruct (CredModel.dec_parse _ _ _ _ _ _) as [e|[m2 tag]] eqn:P; [discriminate|].
+  destruct (negb _); [discriminate|].
+  destruct (dec_time cf (m_time0 m2) (m_ttl m2) (m_time1 m2)) as [tv ttl'] eqn:T.
+  destruct tv; try discriminate. inversion H; subst; clear H.
+  destruct (dec_parse_frame hmac sha1 blk_dec zdecomp _ _ _ _ P) as (_ & Hr & _ & _ & Ht1).
+  cbn in Hr, Ht1. split; [|exact Hr].
+  unfold cred_rkey. cbn.
+  pose proof (window_exact cf (m_time0 m2) (m_ttl m2) (m_time1 m2)) as W. cbv zeta in W.
+  destruct W as (W & _). rewrite T in W. cbn [fst] in W. destruct (proj1 W eq_refl) as [_ W2].
+  assert (ttl' = capped cf (m_ttl m2)) as -> by (pose proof (dec_time_ttl cf (m_time0 m2) (m_ttl m2) (m_time1 m2)) as X; rewrite T in X; exact X).
+  rewrite Ht1 in W2. lia.
+Qed.
+
+(* the one-clock dec_process is the case in which the clock has not advanced by the replay step *)
+Lemma dec_process_atomic cf mem rs m pu pg now :
+  dec_process cf mem rs m pu pg now = dec_process2 hmac sha1 blk_dec zdecomp cf mem rs m pu pg now (u32 now).
+Proof.
+  rewrite dec_process_factor, dec_process2_factor.
+  destruct (dec_pre cf mem m pu pg now) as [r|[m' k]] eqn:P; [reflexivity|].
+  destruct (dec_pre_expiry _ _ _ _ _ _ _ _ P) as [L _].
+  replace (snd k <? u32 now) with false by (symmetry; apply N.ltb_ge; exact L). reflexivity.
+Qed.
+
 (* ---- TARGETS (to be proved; statements fixed by the maintainer) ---------------------------------- *)
 
 Definition retag (r : N) (x : msg + (msg * rkey)) : msg + (msg * rkey) :=
